@@ -203,6 +203,44 @@ func probes(r *hk.Run) {
 	}
 }
 
+// lateContent: two fixed worlds (independent of the seed) for the class "the corpus keeps receiving
+// blobs between searches": two permanodes with distinct claim times, one of them with a camliContent
+// claim whose file – with a time that moves the permanode past the other in creation order – is
+// uploaded only after the sorted searches have been asked once; no claim arrives in between, and the
+// same searches are asked again.
+func lateContent(r *hk.Run) {
+	all := &Cons{Camli: "permanode"}
+	tagged := &Cons{Pn: &PermC{Attr: "tag", Value: "x"}}
+	for i, ftime := range []int64{1300000000, 1500000000} {
+		c := newCase(r, fmt.Sprintf("fixed late content file %d", i+1))
+		b := c.b
+		p1, p2 := b.PN("late1"), b.PN("late2")
+		file, _ := PlanFile("a.txt", "hello world", ftime)
+		b.Claim(p1, "add", "tag", "x", 1400000010)
+		b.Claim(p1, "set", "camliContent", file, 1400000011+int64(i)*20) // p1 before p2 in world 1, after it in world 2
+		b.Claim(p2, "add", "tag", "x", 1400000020)
+		b.SyncCTimes()
+		ask := func(phase string) {
+			b.Raw("times")
+			for _, cons := range []*Cons{all, tagged} {
+				for _, s := range []string{"-created", "-mod", "created", "unspec"} {
+					for _, l := range []int{1, 2, -1} {
+						r.Hit("fixed-late-content:" + phase)
+						c.query(s, l, cons, "nonconstant")
+					}
+				}
+			}
+		}
+		ask("before-file")
+		b.File("a.txt", b.Bytes("hello world"), ftime, "text/plain")
+		b.SyncCTimes()
+		ask("after-file")
+		if len(b.Bad) > 0 {
+			r.Fail("world-build", strings.Join(b.Bad, "; "), "ok", "", r.CaseOps())
+		}
+	}
+}
+
 func malformed(r *hk.Run) {
 	c := newCase(r, "malformed ops")
 	b := c.b
@@ -234,6 +272,7 @@ func Run(r *hk.Run) {
 		"not constant on the world (the reference evaluator matches some but not all blobs) and the sort is supported for it; " +
 		"distinct by (constraint, sort, limit, world size)"
 	probes(r)
+	lateContent(r)
 	malformed(r)
 	worlds, consPer, maxDepth := 500, 6, 3
 	if r.Thorough() {
